@@ -289,3 +289,6 @@ _min("scsi_cdb_modesense10:ModeSense10", 36, _mg({6: 0, 7: 0, 8: 0x0A, 9: 0x0A, 
 _min(RL, 24, _be(0, 4, 16), note="REPORT LUNS with two LUNs", count=("luns", 2))
 _min(GL, 40, _be(0, 4, 36), note="GET LBA STATUS with two descriptors", count=("lbas", 2))
 _min(PI + "PersistentReserveInReadKeys", 24, _be(4, 4, 16), note="READ KEYS, two keys", count=("reservation_keys", 2))
+_min(IQ, 8, _mg({1: 0x00}, _be(2, 2, 4)), {"evpd": 1}, "Supported VPD Pages with four entries", count=("vpd_pages", 4))
+_min(RT, 32, _mg({4: 0, 7: 2, 27: 1}, _be(0, 4, 28)), note="REPORT TARGET PORT GROUPS, two groups (two ports, one port)",
+     count=("target_port_group_descriptors", 2))
